@@ -662,6 +662,13 @@ func (r *Run) Check() (f *wx.Failure) {
 			return f
 		}
 	}
+	if r.cfg.Prefer != nil {
+		for _, f := range found {
+			if r.cfg.Prefer(f) {
+				return f
+			}
+		}
+	}
 	if len(found) > 0 {
 		return found[0]
 	}
@@ -857,8 +864,11 @@ func sigWord(s string) string {
 	if len(f) > 2 && f[0] == "visits" && f[2] == "entities," {
 		return "count"
 	}
-	if len(f) > 2 && f[0] == "visits" {
-		return strings.Join(f[2:], "-")
+	switch f[len(f)-1] {
+	case "twice":
+		return "twice"
+	case "match":
+		return "non-matching"
 	}
 	return f[0]
 }
